@@ -170,6 +170,32 @@ func runC06(c *Ctx) {
 		run("ct:extended", m, cl.blind, cl.pubEnc, false)
 		m.EncryptedTokenRequest = req.EncryptedTokenRequest[:len(req.EncryptedTokenRequest)-1]
 		run("ct:truncated", m, cl.blind, cl.pubEnc, false)
+		// name key id of another length: the signed bytes are the field as carried, whatever its length (nothing else checks it)
+		m = req
+		m.NameKeyID = append(append([]byte{}, req.NameKeyID...), 0)
+		run("nameKeyId:extended-by-zero", m, cl.blind, cl.pubEnc, false)
+		m.NameKeyID = append(append([]byte{}, req.NameKeyID...), r.Bytes(1+r.IntN(40))...)
+		run("nameKeyId:extended", m, cl.blind, cl.pubEnc, false)
+		m.NameKeyID = req.NameKeyID[:31]
+		run("nameKeyId:truncated", m, cl.blind, cl.pubEnc, false)
+		m.NameKeyID = []byte{}
+		run("nameKeyId:empty", m, cl.blind, cl.pubEnc, false)
+		{
+			// signed with a name key id that ends in zero bytes, presented without them; and signed over a short one, presented zero-padded
+			nk := append(r.Bytes(29), 0, 0, 0)
+			z := signedRequest(cl.sk, cl.blindKey, req.RequestKey, nk, req.EncryptedTokenRequest)
+			run("nameKeyId:zero-tail-honest", z, cl.blind, cl.pubEnc, true)
+			z.NameKeyID = nk[:29]
+			run("nameKeyId:zero-tail-dropped", z, cl.blind, cl.pubEnc, false)
+			z = signedRequest(cl.sk, cl.blindKey, req.RequestKey, nk[:29], req.EncryptedTokenRequest)
+			run("nameKeyId:short-honest", z, cl.blind, cl.pubEnc, true)
+			z.NameKeyID = nk
+			run("nameKeyId:short-zero-padded", z, cl.blind, cl.pubEnc, false)
+			z = signedRequest(cl.sk, cl.blindKey, req.RequestKey, append(append([]byte{}, req.NameKeyID...), r.Bytes(7)...), req.EncryptedTokenRequest)
+			run("nameKeyId:long-honest", z, cl.blind, cl.pubEnc, true)
+			z.NameKeyID = z.NameKeyID[:32]
+			run("nameKeyId:long-cut-to-32", z, cl.blind, cl.pubEnc, false)
+		}
 		// signature by another key over the same contents; over other contents by the right key
 		rkEnc := req.RequestKey
 		m = signedRequest(other.sk, other.blindKey, rkEnc, req.NameKeyID, req.EncryptedTokenRequest)
